@@ -70,8 +70,20 @@ func isMutexWait(st string) bool {
 
 var leaked int
 
-// call runs f in a goroutine; "blocked" when the goroutine parks on a mutex, "hang" after 20 s otherwise.
-func call(f func() string) string {
+func debugf(format string, a ...interface{}) {
+	if p := os.Getenv("VERIF_C37_DEBUG"); p != "" {
+		if f, err := os.OpenFile(p, os.O_APPEND|os.O_CREATE|os.O_WRONLY, 0o644); err == nil {
+			fmt.Fprintf(f, format+"\n", a...)
+			f.Close()
+		}
+	}
+}
+
+// call runs f in a goroutine. It answers "blocked" when the goroutine is parked on a mutex WHILE r.mutex is
+// unavailable (checked with TryLock through the hook) in three successive samples — nothing in a sequential case can
+// release r.mutex, so that state is permanent; a goroutine parked for a moment on some other lock is simply waited
+// for. "hang" after 60 s otherwise.
+func call(locked func() bool, f func() string) string {
 	done := make(chan string, 1)
 	gid := make(chan string, 1)
 	go func() {
@@ -85,6 +97,7 @@ func call(f func() string) string {
 	}()
 	id := <-gid
 	start := time.Now()
+	confirmed := 0
 	for spin := 0; ; spin++ {
 		select {
 		case s := <-done:
@@ -95,17 +108,28 @@ func call(f func() string) string {
 			runtime.Gosched()
 			continue
 		}
-		if isMutexWait(waitState(id)) {
-			// it cannot have finished: it is parked and nothing runs that could wake it
-			select {
-			case s := <-done:
-				return s
-			default:
+		st := waitState(id)
+		if isMutexWait(st) {
+			if locked() {
+				confirmed++
+				if confirmed >= 3 {
+					select {
+					case s := <-done:
+						return s
+					default:
+					}
+					leaked++
+					return "blocked"
+				}
+			} else {
+				debugf("goroutine %s in state %q while r.mutex is free (transient wait on another lock)", id, st)
+				confirmed = 0
 			}
-			leaked++
-			return "blocked"
+		} else {
+			confirmed = 0
 		}
-		if time.Since(start) > 20*time.Second {
+		if time.Since(start) > 60*time.Second {
+			debugf("goroutine %s: no answer after 60 s, state %q", id, st)
 			leaked++
 			return "hang"
 		}
@@ -399,7 +423,7 @@ func runCase(ops []string) []string {
 			outs[i] = "bad-op"
 			continue
 		}
-		outs[i] = call(f) + obs(r)
+		outs[i] = call(func() bool { return r.VerifState().Locked }, f) + obs(r)
 	}
 	return outs
 }
@@ -415,7 +439,12 @@ func stressImpl(w []string) string {
 		return "bad-op"
 	}
 	lost := 0
+	// bounded in time as well: on a loaded machine the spinning pairs get slow, and the case must answer
+	deadline := time.Now().Add(25 * time.Second)
 	for t := 0; t < trials; t++ {
+		if t%1000 == 0 && time.Now().After(deadline) {
+			break
+		}
 		r := round.NewRound(5)
 		b := mkBlock("1", "0")
 		var wg sync.WaitGroup
@@ -558,6 +587,7 @@ func impl(ops []string) []string {
 	case r := <-ch:
 		if r == nil || len(r.Outs) != len(ops) {
 			w.kill()
+			debugf("worker died on case %q", ops[0])
 			return fail("worker-died")
 		}
 		w.served++
@@ -569,6 +599,9 @@ func impl(ops []string) []string {
 			poolMu.Unlock()
 		}
 		for i, op := range ops {
+			if strings.HasPrefix(r.Outs[i], "hang") || strings.HasPrefix(r.Outs[i], "panic") {
+				debugf("case %q op %d %q answered %q", ops[0], i, op, r.Outs[i])
+			}
 			if strings.HasPrefix(op, "stress ") && strings.HasPrefix(r.Outs[i], "stress lost ") {
 				// the count of a real concurrent run is not reproducible: it goes to the oracle on the side
 				n, _ := strconv.Atoi(strings.TrimPrefix(r.Outs[i], "stress lost "))
@@ -579,8 +612,9 @@ func impl(ops []string) []string {
 			}
 		}
 		return r.Outs
-	case <-time.After(120 * time.Second):
+	case <-time.After(300 * time.Second):
 		w.kill()
+		debugf("case timeout on %q (%d ops)", ops[0], len(ops))
 		return fail("hang")
 	}
 }
@@ -917,14 +951,14 @@ func main() {
 	stress := "stress 20000"
 	for i, a := range os.Args {
 		if a == "-tier" && i+1 < len(os.Args) && os.Args[i+1] == "thorough" {
-			stress = "stress 300000"
+			stress = "stress 200000"
 		}
 	}
 	corr.Main(corr.Prop{
 		ID: "C37", Model: "C37", Gen: gen, Impl: impl, Oracle: oracle,
 		Cases: func(th bool) int {
 			if th {
-				return 20000
+				return 12000
 			}
 			return 3000
 		},
